@@ -83,7 +83,7 @@ def serde_gate(draw, maxq, tier, mods_pool=("dag", "c", "pow", "exp")):
                 mods.append(["c", c])
                 k += c
         elif w == "pow":
-            mods.append(["pow", draw(st.sampled_from([2, -1, 3, 0.5, 1 / 3, 2.5, -2, 0.1]))])
+            mods.append(["pow", draw(st.sampled_from([2, -1, 3, 0.5, 1 / 3, 2.5, -2, 0.1, 0, 0.0, 1, -0.5]))])
         else:
             mods.append(["exp"])
     spec["mods"] = mods
